@@ -457,6 +457,18 @@ func (x *Exec) specCall(n *ast.CallExpr, env *specEnv, reach Term) Val {
 		case "mi":
 			v := x.evalSpec(n.Args[0], env, reach)
 			return Val{MI: true, L: []Term{x.toMI(v)}}
+		case "visited":
+			// visited(k): k was already delivered by the (single) map iteration of this function
+			if len(x.visited) != 1 {
+				specFail("visited(): the function must contain exactly one map iteration (found %d)", len(x.visited))
+			}
+			for _, vis := range x.visited {
+				kk := x.scalarize(x.evalSpec(n.Args[0], env, reach))
+				if kk.C != nil || len(kk.L) != 1 || kk.L[0].Sort != arrKeySort(vis.Sort) {
+					specFail("visited(): key has the wrong type")
+				}
+				return boolV(Select(vis, kk.L[0]))
+			}
 		case "has":
 			// has(m, k): map membership
 			m := x.evalSpec(n.Args[0], env, reach)
